@@ -30,7 +30,7 @@ pub struct Perturb {
     pub noise: Vec<(String, String)>,
     pub unset_home: bool,
     /// 0 none; 1 stdout is a regular file; 2 the binary is started through a symlink; 3 umask 077;
-    /// 4 all three
+    /// 4 all three; 5 one usable CPU; 6 two usable CPUs
     #[serde(default)]
     pub process: u8,
     pub label: String,
@@ -135,7 +135,7 @@ fn gen_perturbs(r: &mut Rng, git: bool) -> Vec<Perturb> {
             p.unset_home = true;
         }
         if r.chance(1, 4) {
-            p.process = 1 + r.below(4) as u8;
+            p.process = 1 + r.below(6) as u8;
         }
         out.push(p);
     }
@@ -399,6 +399,11 @@ impl<'a> Exec<'a> {
             stderr: crate::proc::Stdout::Capture,
             exe,
             umask: if p.process == 3 || p.process == 4 { Some(0o077) } else { None },
+            cpus: match p.process {
+                5 => Some(1),
+                6 => Some(2),
+                _ => None,
+            },
         }
     }
 }
